@@ -201,6 +201,7 @@ func knownNotNewline(v ssa.Value, b *ssa.BasicBlock) bool {
 
 // leaves: what a string value is concatenated from, left to right.
 func leaves(v ssa.Value, out *[]ssa.Value, d int) {
+	v = stripStringConv(v) // string(x), named(x) between string types: the same text
 	if b, ok := v.(*ssa.BinOp); ok && b.Op == token.ADD && d < 64 {
 		leaves(b.X, out, d+1)
 		leaves(b.Y, out, d+1)
